@@ -214,7 +214,7 @@ func runC01(t *testing.T, c ACLCase) (*h.Violation, h.Info) {
 var c01 = &h.Campaign[ACLCase]{
 	Prop: "C01", Sub: "acl",
 	Rule: "rapid: a superuser pre-history (0-14 mutations) over 9 names (plain, dev/.., prod/.., one containing '*', one containing a newline, _internal/x, empty), a rule set of 0-3 rules (action multisets incl. near-miss strings, 1-3 patterns from exact names and wildcard shapes), then 1-25 calls of every kind by the restricted caller; run either on db.DB or through the registered HTTP handlers + setec.Client with a WhoIs table; expected outcome from the ACL model + map model BEFORE the call; every denied call is repeated on an empty twin database and the refusals compared; superuser dump after every call; non-trivial = the scenario has a denied call on an existing secret AND an allowed successful call AND a wildcard pattern; distinct by scenario",
-	Quick: 6000, Thorough: 300000,
+	Quick: 6000, Thorough: 1000000,
 	Gen:   genACLCase,
 	Run:   runC01,
 }
